@@ -184,7 +184,7 @@ def h_api(ctx):
         ctx.observe(("empty-times", tuple(sorted(chosen.items()))))
         return
     if ok:
-        sig = CD.check_requests(ctx, data, ref, [["obs", "fcst"], ["fcst"]], ["no", "time", "location", "all"], "api")
+        sig = CD.check_requests(ctx, data, ref, [["obs", "fcst"], ["fcst"]], ["no", "time", "location", "all", "day", "timeofday", "month"], "api")
     ctx.observe((tuple(ref.T), tuple(ref.L), tuple(ref.S), obsr))
     full = len(ref.T) == 5 and len(ref.L) == 3 and len(ref.S) == 4
     ctx.outcome("T%dL%dS%d" % (len(ref.T), len(ref.L), len(ref.S)))
